@@ -47,7 +47,6 @@ func (w *c12world) installOracleHooks() {
 			return
 		}
 		sub := strings.TrimPrefix(ev.key, prefix)
-		wt.h.delivered[sub]++
 		if ev.from == sl.idx {
 			// the node's own write echoed back: not "announced by another node"
 			sl.touch[sub] = &c12touch{}
@@ -83,11 +82,7 @@ func (w *c12world) afterOp(r *c12opres, all []*c12opres) {
 		c.S.Probe("storefail_skipped_disagreed_before")
 		return
 	}
-	if sl.h.delivered[r.sub] != r.preDeliv {
-		// a notification for the same subscriber was applied while the call was in flight
-		c.S.Probe("storefail_skipped_notification_during_call")
-		return
-	}
+
 	failed := "store"
 	for _, k := range []string{"put", "delete", "get", "query"} {
 		if strings.Contains(r.err.Error(), k+" /allocation/") {
@@ -95,6 +90,11 @@ func (w *c12world) afterOp(r *c12opres, all []*c12opres) {
 		}
 	}
 	mem, rec := w.get(sl, r.sub), w.record(r.sub)
+	if r.preBusy || sl.h.delivered[r.sub] != r.preDeliv {
+		// a notification for the same subscriber reached the node between the two observations
+		c.S.Probe("storefail_skipped_notification_during_call")
+		return
+	}
 	c.S.Probe("storefail_checked_" + r.kind + "_" + failed)
 	if mem == rec {
 		return
